@@ -169,6 +169,12 @@ func genCreate(t *rapid.T, w *world) genReq {
 		g.data["rpc_channel_info"] = map[string]any{"name": w.srcRoot + "-replicate-msg", "position": validPos(w.srcRoot+"-replicate-msg", 1)}
 	case 3:
 		g.data["rpc_channel_info"] = map[string]any{"name": w.srcRoot + "-replicate-msg"}
+	case 4:
+		// no channel name (the configured replicate channel is used) but a position which cannot be decoded
+		g.data["rpc_channel_info"] = map[string]any{"position": rapid.SampledFrom([]string{"@@@", "###="}).Draw(t, "badRpcPos")}
+		plant("rpc_pos_undecodable")
+	case 5:
+		g.data["rpc_channel_info"] = map[string]any{"name": "", "position": validPos(w.srcRoot+"-replicate-msg", 1)}
 	}
 	// ---- mapping
 	switch shifted(t, "mapping", 30, 2) {
